@@ -562,6 +562,7 @@ class Interp:
         elif isinstance(t, ast.Attribute):
             base = self.eval(t.value, frame, st)
             self.model.on_store(self, st, frame, 'attr', t, base, None, v, stmt=stmt)
+            v = self.model.on_attr_assign(self, base, t.attr, v)
             if base.ty == 'obj' and base.oid in st.heap:
                 st.heap[base.oid][t.attr] = v
             self.values_store(t, v, frame)
